@@ -1021,7 +1021,9 @@ func (interp *Interpreter) cfg(root *node, sc *scope, importPath, pkgName string
 					n.typ = t
 					return
 				}
-				g, found, err := genAST(sc, t.node.anc, []*itype{c1.typ})
+				var g *node
+				var found bool
+				g, found, err = genAST(sc, t.node.anc, []*itype{c1.typ})
 				if err != nil {
 					return
 				}
@@ -1186,7 +1188,9 @@ func (interp *Interpreter) cfg(root *node, sc *scope, importPath, pkgName string
 				for _, c := range c0.child[1:] {
 					lt = append(lt, c.typ)
 				}
-				g, found, err := genAST(sc, fun, lt)
+				var g *node
+				var found bool
+				g, found, err = genAST(sc, fun, lt)
 				if err != nil {
 					return
 				}
